@@ -37,13 +37,14 @@ def main():
         try:
             res = []
             for p in props:
-                r = sh([sys.executable, os.path.join(ROOT, "verif.py"), "check", p, "--tier", "quick"])
+                env = dict(os.environ); env.update(meta.get("env", {}))
+                r = sh([sys.executable, os.path.join(ROOT, "verif.py"), "check", p, "--tier", "quick"], env=env)
                 lines = r.stdout.splitlines()
                 viol = [l for l in lines if l.startswith("VIOLATION")]
                 summ = [l for l in lines if l.startswith(p + " [")]
                 if viol:
                     v = viol[0]
-                    leg = "oracle" if "-oracle" in v else ("proof" if "-proof" in v else "correspondence")
+                    leg = "oracle" if "-oracle" in v else ("proof" if "-proof" in v else ("non-termination" if "-nontermination" in v else "correspondence"))
                     if "-oracle-search" in v: leg = "oracle (extended search)"
                     kind = "no-failing-input-found" if v.rstrip().endswith("no-failing-input-found") else "failing input"
                     res.append((p, True, leg, kind, (summ[0] if summ else "")[:300]))
